@@ -45,7 +45,8 @@ def strategy_(draw, tier):
         spec['kind'] = 'static'
         spec['ticks'] = draw(st.integers(1, 3))
         return spec
-    spec = draw(struct.histories(viewers=True, residents=draw(st.booleans())))
+    spec = draw(struct.histories(viewers=True, residents=draw(st.booleans()),
+                                 anchor_ok=True))
     spec['kind'] = 'struct'
     return spec
 
